@@ -101,6 +101,9 @@ def run(ctx, rep) -> None:
     rep.attempt("buffer_views", buffer_views, ctx, rep, "C08.3", [HYB])
     rep.attempt("typing_sites", typing_sites, ctx, rep, "C08.3", {"distributed_shampoo.utils.shampoo_hybrid_shard_distributor", "distributed_shampoo.utils.shampoo_fully_shard_distributor", "distributed_shampoo.utils.shampoo_distributor"}, {"distributed_shampoo.utils.shampoo_hybrid_shard_distributor": 8})
     rep.attempt("_dist_remask", _dist_remask, ctx, rep, "C08.3", HYB)
+    from .c04 import _change_guards
+
+    rep.attempt("_change_guards", _change_guards, ctx, rep, "C08.3")
     from .c04 import stateful_cursors_advance
 
     rep.attempt("stateful_cursors_advance", stateful_cursors_advance, ctx, rep, "C08.3")
